@@ -99,6 +99,9 @@ def run_case(case):
                         try:
                             if act[1] == 'close':
                                 cf.close_link()
+                            elif act[1] == 'sleep':
+                                # the application's callback takes its time: other threads run meanwhile
+                                detsched.d_sleep(act[3] if len(act) > 3 else 0.05)
                             elif act[1] == 'open':
                                 log.append(['ev', 'open', S.name()])
                                 cf.open_link('fake://0')
